@@ -3,17 +3,17 @@ CONSTANTS
   TU = 1
   Jit = 0
   NeMissing = FALSE
-  PrefixPairs = {}
+  PrefixPairs <- mcPrefixPairs
   TopicNames = {"t1"}
-  SubNames = {"s1", "s2"}
-  SnapNames = {"n1"}
+  SubNames = {"s1"}
+  SnapNames = {}
   SubCfgs <- mcSubCfgs
   MsgKinds <- mcMsgKinds
-  BatchMax = 2
-  MaxMsgs = 2
+  BatchMax = 1
+  MaxMsgs = 3
   MaxTopics = 1
-  MaxSubs = 2
-  MaxDels = 4
+  MaxSubs = 4
+  MaxDels = 6
   MaxTime = 100
   TickDs = {1}
   PullMaxes = {10}
@@ -24,12 +24,11 @@ CONSTANTS
   Ops <- mcOps
   Setup <- mcSetup
   ProjOfName <- mcProjOfName
-  Depth = 8
+  Depth = 6
   AttBound = 100
   ViewKeep = {}
   RealBackoff = FALSE
   GenBFS = TRUE
   AckAll = FALSE
   Weights <- mcWeights
-ACTION_CONSTRAINT PublishFirst
 CHECK_DEADLOCK FALSE
